@@ -1,6 +1,7 @@
 import CollectionsC.Base.Word
 import CollectionsC.Spec.DequeSpec
 import CollectionsC.Model.Deque
+import CollectionsC.Proofs.DequeMem
 /-! Helper lemmas and per-operation theorems for the deque model: both ends, replace/get, removal of
 all elements, growth (`expandCapacity`) and `copyBuffer`.  `add_at`/`remove_at` are in
 `Proofs/DequeAt.lean`, the remaining operations in `Proofs/DequeMore.lean`. -/
@@ -211,59 +212,13 @@ theorem copyBuffer_some (d : Deque) (f : Nat → Nat) (buff : Buf Nat) (m : Mem)
   · exact ⟨rfl, rfl, by omega⟩
   · simp only
     have hslots : ∀ i, i < d.size → d.slot i < d.buf.length := fun i _ =>
-      Nat.lt_of_lt_of_le (Nat.mod_lt _ hpos) hl
+      Nat.lt_of_lt_of_le (Nat.mod_lt _ hpos) (Nat.le_of_eq hl.symm)
     obtain ⟨l1, l2, l3⟩ := copyLoop d f buff m d.size hb hslots
     refine ⟨l1, l2, ?_⟩
     intro i hi
     rw [l3 i, if_pos hi]
 
-/-! ## allocator bookkeeping -/
-
-/-- same ledger balance, same fault flag, and a never-refusing allocator stays never-refusing
-(the per-operation event counters may differ) -/
-def memSame (m' m : Mem) : Prop :=
-  m'.live = m.live ∧ m'.fault = m.fault ∧ m'.libc = m.libc ∧ (m.sched = [] → m'.sched = [])
-
-theorem memSame_refl (m : Mem) : memSame m m := ⟨rfl, rfl, rfl, id⟩
-theorem memSame_trans {a b c : Mem} (h1 : memSame a b) (h2 : memSame b c) : memSame a c :=
-  ⟨h1.1.trans h2.1, h1.2.1.trans h2.2.1, h1.2.2.1.trans h2.2.2.1, fun h => h1.2.2.2 (h2.2.2.2 h)⟩
-
-theorem free_of_pos (m : Mem) (h : 0 < m.live) :
-    m.free.live = m.live - 1 ∧ m.free.fault = m.fault ∧ m.free.libc = m.libc ∧ m.free.sched = m.sched := by
-  unfold Mem.free; rw [if_neg (by omega)]; exact ⟨rfl, rfl, rfl, rfl⟩
-
-theorem alloc_sched_nil (m : Mem) (h : m.sched = []) : m.alloc.1 = true ∧ m.alloc.2.sched = [] :=
-  Mem.alloc_nil m h
-
-/-- a successful allocation followed (later) by one release restores the balance -/
-theorem alloc_free_same (m : Mem) (h : m.alloc.1 = true) : memSame m.alloc.2.free m := by
-  obtain ⟨a1, a2, a3⟩ := Mem.alloc_fst_true m h
-  obtain ⟨f1, f2, f3, f4⟩ := free_of_pos m.alloc.2 (by omega)
-  exact ⟨by omega, by rw [f2, a2], by rw [f3, a3], fun hs => by rw [f4]; exact (alloc_sched_nil m hs).2⟩
-
-theorem alloc_refused_same (m : Mem) (h : m.alloc.1 = false) : memSame m.alloc.2 m := by
-  obtain ⟨a1, a2, a3⟩ := Mem.alloc_fst_false m h
-  refine ⟨a1, a2, a3, fun hs => ?_⟩
-  have := (alloc_sched_nil m hs).1
-  rw [h] at this; exact absurd this (by decide)
-
-/-- two successful allocations: two more blocks, flags kept -/
-theorem alloc2_grow (m : Mem) (h1 : m.alloc.1 = true) (h2 : m.alloc.2.alloc.1 = true) :
-    m.alloc.2.alloc.2.live = m.live + 2 ∧ m.alloc.2.alloc.2.fault = m.fault ∧
-    (m.sched = [] → m.alloc.2.alloc.2.sched = []) := by
-  obtain ⟨a1, a2, _⟩ := Mem.alloc_fst_true m h1
-  obtain ⟨b1, b2, _⟩ := Mem.alloc_fst_true m.alloc.2 h2
-  exact ⟨by omega, by rw [b2, a2], fun hs => (alloc_sched_nil _ (alloc_sched_nil m hs).2).2⟩
-
-/-- first allocation succeeds, second is refused, first released again -/
-theorem alloc_refused2_same (m : Mem) (h1 : m.alloc.1 = true) (h2 : m.alloc.2.alloc.1 = false) :
-    memSame m.alloc.2.alloc.2.free m := by
-  obtain ⟨a1, a2, a3⟩ := Mem.alloc_fst_true m h1
-  obtain ⟨b1, b2, b3⟩ := Mem.alloc_fst_false m.alloc.2 h2
-  obtain ⟨f1, f2, f3, f4⟩ := free_of_pos m.alloc.2.alloc.2 (by omega)
-  refine ⟨by omega, by rw [f2, b2, a2], by rw [f3, b3, a3], fun hs => ?_⟩
-  have := (alloc_sched_nil _ (alloc_sched_nil m hs).2).1
-  rw [h2] at this; exact absurd this (by decide)
+/-! ## allocator bookkeeping: see `Proofs/DequeMem.lean` (`memSame t`, `memRel t k`, `allocT_ok`, …) -/
 
 theorem max_pow_two_eq : Gen.MAX_POW_TWO = 2 ^ 31 := by decide
 
@@ -272,42 +227,42 @@ theorem max_pow_two_eq : Gen.MAX_POW_TWO = 2 ^ 31 := by decide
 theorem expandCapacity_max (d : Deque) (m : Mem) (hc : d.cap = Gen.MAX_POW_TWO) :
     d.expandCapacity m = (.errMaxCapacity, d, m) := by simp [expandCapacity, hc]
 
-theorem expandCapacity_refused (d : Deque) (m : Mem) (hc : d.cap ≠ Gen.MAX_POW_TWO) (ha : m.alloc.1 = false) :
-    d.expandCapacity m = (.errAlloc, d, m.alloc.2) := by simp [expandCapacity, hc, ha]
+theorem expandCapacity_refused (d : Deque) (m : Mem) (hc : d.cap ≠ Gen.MAX_POW_TWO) (ha : (m.allocT d.triple).1 = false) :
+    d.expandCapacity m = (.errAlloc, d, (m.allocT d.triple).2) := by simp [expandCapacity, hc, ha]
 
-theorem expandCapacity_grow (d : Deque) (m : Mem) (hc : d.cap ≠ Gen.MAX_POW_TWO) (ha : m.alloc.1 = true) :
+theorem expandCapacity_grow (d : Deque) (m : Mem) (hc : d.cap ≠ Gen.MAX_POW_TWO) (ha : (m.allocT d.triple).1 = true) :
     d.expandCapacity m = (.ok,
       { size := d.size, cap := d.cap <<< 1, first := 0, last := d.size,
-        buf := (d.copyBuffer (Buf.mk (d.cap <<< 1)) none m.alloc.2).1 },
-      (d.copyBuffer (Buf.mk (d.cap <<< 1)) none m.alloc.2).2.free) := by
+        buf := (d.copyBuffer (Buf.mk (d.cap <<< 1)) none (m.allocT d.triple).2).1, triple := d.triple },
+      (d.copyBuffer (Buf.mk (d.cap <<< 1)) none (m.allocT d.triple).2).2.freeT d.triple) := by
   simp [expandCapacity, hc, ha]
 
 theorem expandCapacity_fail (d : Deque) (m : Mem) (h : (d.expandCapacity m).1 ≠ .ok) :
-    (d.expandCapacity m).2.1 = d ∧ memSame (d.expandCapacity m).2.2 m ∧
+    (d.expandCapacity m).2.1 = d ∧ memSame d.triple (d.expandCapacity m).2.2 m ∧
     ((d.expandCapacity m).1 = .errAlloc ∨ (d.expandCapacity m).1 = .errMaxCapacity) ∧
-    ((d.expandCapacity m).1 = .errAlloc → m.alloc.1 = false) := by
+    ((d.expandCapacity m).1 = .errAlloc → (m.allocT d.triple).1 = false) := by
   by_cases hc : d.cap = Gen.MAX_POW_TWO
-  · rw [expandCapacity_max d m hc]; exact ⟨rfl, memSame_refl m, Or.inr rfl, by simp⟩
-  · cases ha : m.alloc.1
+  · rw [expandCapacity_max d m hc]; exact ⟨rfl, memSame_refl _ m, Or.inr rfl, by simp⟩
+  · cases ha : (m.allocT d.triple).1
     · rw [expandCapacity_refused d m hc ha]
-      exact ⟨rfl, alloc_refused_same m ha, Or.inl rfl, fun _ => rfl⟩
+      exact ⟨rfl, (allocT_refused _ m ha).1, Or.inl rfl, fun _ => rfl⟩
     · rw [expandCapacity_grow d m hc ha] at h; simp at h
 
 theorem expandCapacity_ok (d : Deque) (m : Mem) (hi : d.Inv) (h : (d.expandCapacity m).1 = .ok) :
     (d.expandCapacity m).2.1.Inv ∧ (d.expandCapacity m).2.1.abs = d.abs ∧
     (d.expandCapacity m).2.1.size = d.size ∧ (d.expandCapacity m).2.1.cap = 2 * d.cap ∧
-    memSame (d.expandCapacity m).2.2 m ∧ m.alloc.1 = true ∧ d.cap ≠ Gen.MAX_POW_TWO := by
+    memSame d.triple (d.expandCapacity m).2.2 m ∧ (m.allocT d.triple).1 = true ∧ d.cap ≠ Gen.MAX_POW_TWO := by
   have hi' := hi
   obtain ⟨hp, hmax, hl, hf, hla, hsz⟩ := hi
   have hpos := Inv.cap_pos hi'
   by_cases hc : d.cap = Gen.MAX_POW_TWO
   · rw [expandCapacity_max d m hc] at h; simp at h
-  cases ha : m.alloc.1
+  cases ha : (m.allocT d.triple).1
   · rw [expandCapacity_refused d m hc ha] at h; simp at h
   rw [expandCapacity_grow d m hc ha]
   have hcap2 : d.cap <<< 1 = 2 * d.cap := by simp [Nat.shiftLeft_eq]; omega
   have hb : d.size ≤ (Buf.mk (d.cap <<< 1) : Buf Nat).length := by simp [hcap2]; omega
-  obtain ⟨b1, b2, b3, _⟩ := copyBuffer_none d (Buf.mk (d.cap <<< 1)) m.alloc.2 hi' hb
+  obtain ⟨b1, b2, b3, _⟩ := copyBuffer_none d (Buf.mk (d.cap <<< 1)) (m.allocT d.triple).2 hi' hb
   refine ⟨⟨?_, ?_, ?_, ?_, ?_, ?_⟩, ?_, rfl, hcap2, ?_, rfl, hc⟩
   · simp only [hcap2]
     rw [hp, ← Nat.pow_succ']; exact pow2_log2 _
@@ -331,7 +286,7 @@ theorem expandCapacity_ok (d : Deque) (m : Mem) (hi : d.Inv) (h : (d.expandCapac
       simp only [Nat.zero_add, hcap2]
       rw [Nat.mod_eq_of_lt (by omega)]
       exact b3 i hi
-  · simp only [b2]; exact alloc_free_same m ha
+  · simp only [b2]; exact alloc_free_same _ m ha
 
 /-! ## `add_last`, `add_first` -/
 
@@ -340,11 +295,11 @@ or `CC_ERR_ALLOC` with the whole state unchanged (the deque was full and growing
 capacity limit was reached) -/
 theorem addLast_spec (d : Deque) (x : Nat) (m : Mem) (hi : d.Inv) :
     ((d.addLast x m).1 = .ok ∧ (d.addLast x m).2.1.Inv ∧ (d.addLast x m).2.1.abs = d.abs ++ [x] ∧
-      memSame (d.addLast x m).2.2 m ∧
+      memSame d.triple (d.addLast x m).2.2 m ∧
       (d.addLast x m).2.1.cap = (if d.size = d.cap then 2 * d.cap else d.cap) ∧
-      (d.size = d.cap → m.alloc.1 = true ∧ d.cap ≠ Gen.MAX_POW_TWO)) ∨
-    ((d.addLast x m).1 = .errAlloc ∧ (d.addLast x m).2.1 = d ∧ memSame (d.addLast x m).2.2 m ∧
-      d.size = d.cap ∧ (m.alloc.1 = false ∨ d.cap = Gen.MAX_POW_TWO)) := by
+      (d.size = d.cap → (m.allocT d.triple).1 = true ∧ d.cap ≠ Gen.MAX_POW_TWO)) ∨
+    ((d.addLast x m).1 = .errAlloc ∧ (d.addLast x m).2.1 = d ∧ memSame d.triple (d.addLast x m).2.2 m ∧
+      d.size = d.cap ∧ ((m.allocT d.triple).1 = false ∨ d.cap = Gen.MAX_POW_TWO)) := by
   unfold addLast
   by_cases hfull : d.cap = d.size
   · rw [if_pos hfull]
@@ -366,23 +321,23 @@ theorem addLast_spec (d : Deque) (x : Nat) (m : Mem) (hi : d.Inv) :
       · right
         by_cases hc : d.cap = Gen.MAX_POW_TWO
         · exact hc
-        · cases ha : m.alloc.1
+        · cases ha : (m.allocT d.triple).1
           · rw [expandCapacity_refused d m hc ha] at f3; simp at f3
           · rw [expandCapacity_grow d m hc ha] at f3; simp at f3
   · rw [if_neg hfull]
     have hlt : d.size < d.cap := by have := hi.2.2.2.2.2; omega
     obtain ⟨a1, a2, a3, a4, a5⟩ := addLastCore_spec d x m hi hlt
     left
-    refine ⟨a1, a2, a3, by rw [a4]; exact memSame_refl m, by rw [a5, if_neg (by omega)], fun h => by omega⟩
+    refine ⟨a1, a2, a3, by rw [a4]; exact memSame_refl _ m, by rw [a5, if_neg (by omega)], fun h => by omega⟩
 
 /-- `cc_deque_add_first`, same shape as `addLast_spec` -/
 theorem addFirst_spec (d : Deque) (x : Nat) (m : Mem) (hi : d.Inv) :
     ((d.addFirst x m).1 = .ok ∧ (d.addFirst x m).2.1.Inv ∧ (d.addFirst x m).2.1.abs = x :: d.abs ∧
-      memSame (d.addFirst x m).2.2 m ∧
+      memSame d.triple (d.addFirst x m).2.2 m ∧
       (d.addFirst x m).2.1.cap = (if d.size = d.cap then 2 * d.cap else d.cap) ∧
-      (d.size = d.cap → m.alloc.1 = true ∧ d.cap ≠ Gen.MAX_POW_TWO)) ∨
-    ((d.addFirst x m).1 = .errAlloc ∧ (d.addFirst x m).2.1 = d ∧ memSame (d.addFirst x m).2.2 m ∧
-      d.size = d.cap ∧ (m.alloc.1 = false ∨ d.cap = Gen.MAX_POW_TWO)) := by
+      (d.size = d.cap → (m.allocT d.triple).1 = true ∧ d.cap ≠ Gen.MAX_POW_TWO)) ∨
+    ((d.addFirst x m).1 = .errAlloc ∧ (d.addFirst x m).2.1 = d ∧ memSame d.triple (d.addFirst x m).2.2 m ∧
+      d.size = d.cap ∧ ((m.allocT d.triple).1 = false ∨ d.cap = Gen.MAX_POW_TWO)) := by
   unfold addFirst
   have hsz := hi.2.2.2.2.2
   by_cases hfull : d.size ≥ d.cap
@@ -406,14 +361,14 @@ theorem addFirst_spec (d : Deque) (x : Nat) (m : Mem) (hi : d.Inv) :
       · right
         by_cases hc : d.cap = Gen.MAX_POW_TWO
         · exact hc
-        · cases ha : m.alloc.1
+        · cases ha : (m.allocT d.triple).1
           · rw [expandCapacity_refused d m hc ha] at f3; simp at f3
           · rw [expandCapacity_grow d m hc ha] at f3; simp at f3
   · rw [if_neg hfull]
     have hlt : d.size < d.cap := by omega
     obtain ⟨a1, a2, a3, a4, a5⟩ := addFirstCore_spec d x m hi hlt
     left
-    refine ⟨a1, a2, a3, by rw [a4]; exact memSame_refl m, by rw [a5, if_neg (by omega)], fun h => by omega⟩
+    refine ⟨a1, a2, a3, by rw [a4]; exact memSame_refl _ m, by rw [a5, if_neg (by omega)], fun h => by omega⟩
 
 /-! ## removal at the two ends, replace, get -/
 open CC.Spec in
@@ -503,7 +458,7 @@ theorem replaceAt_spec (d : Deque) (x index : Nat) (m : Mem) (hi : d.Inv) :
   · rw [if_pos h0, dif_neg (by simp; omega)]; exact ⟨rfl, rfl, rfl, ⟨hp, hmax, hl, hf, hla, hsz⟩, rfl, rfl⟩
   · have hlen : index < d.abs.length := by simp; omega
     rw [if_neg h0, dif_pos hlen]
-    have hsl : (d.first + index) % d.cap < d.buf.length := Nat.lt_of_lt_of_le (Nat.mod_lt _ hpos) hl
+    have hsl : (d.first + index) % d.cap < d.buf.length := Nat.lt_of_lt_of_le (Nat.mod_lt _ hpos) (Nat.le_of_eq hl.symm)
     refine ⟨rfl, ?_, ?_, ⟨hp, hmax, by simpa using hl, hf, hla, hsz⟩, ?_, rfl⟩
     · simp only [rd_fst]; rw [abs_getElem]
     · apply List.ext_getElem
@@ -529,7 +484,7 @@ theorem getAt_spec (d : Deque) (index : Nat) (m : Mem) (hi : d.Inv) :
   by_cases h0 : index ≥ d.size
   · rw [if_pos h0, List.getElem?_eq_none (by simp; omega)]; exact ⟨rfl, rfl, rfl⟩
   · rw [if_neg h0, abs_getElem? d index (by omega)]
-    exact ⟨rfl, rfl, rd_snd _ _ _ (Nat.lt_of_lt_of_le (Nat.mod_lt _ hpos) hl)⟩
+    exact ⟨rfl, rfl, rd_snd _ _ _ (Nat.lt_of_lt_of_le (Nat.mod_lt _ hpos) (Nat.le_of_eq hl.symm))⟩
 
 open CC.Spec in
 theorem getFirst_spec (d : Deque) (m : Mem) (hi : d.Inv) :
@@ -565,5 +520,36 @@ theorem removeAll_spec (d : Deque) (hi : d.Inv) : d.removeAll.Inv ∧ d.removeAl
   obtain ⟨hp, hmax, hl, hf, hla, hsz⟩ := hi
   refine ⟨⟨hp, hmax, hl, hpos, ?_, Nat.zero_le _⟩, by simp [removeAll, abs], rfl⟩
   simp [removeAll]
+
+/-! ## the allocator triple of a deque never changes -/
+
+theorem expandCapacity_triple (d : Deque) (m : Mem) : (d.expandCapacity m).2.1.triple = d.triple := by
+  unfold expandCapacity; split; · rfl
+  dsimp only; split <;> rfl
+
+theorem addLast_triple (d : Deque) (x : Nat) (m : Mem) : (d.addLast x m).2.1.triple = d.triple := by
+  unfold addLast
+  split
+  · dsimp only; split
+    · exact expandCapacity_triple d m
+    · exact expandCapacity_triple d m
+  · rfl
+
+theorem addFirst_triple (d : Deque) (x : Nat) (m : Mem) : (d.addFirst x m).2.1.triple = d.triple := by
+  unfold addFirst
+  split
+  · dsimp only; split
+    · exact expandCapacity_triple d m
+    · exact expandCapacity_triple d m
+  · rfl
+
+theorem removeFirst_triple (d : Deque) (m : Mem) : (d.removeFirst m).2.2.1.triple = d.triple := by
+  unfold removeFirst; split <;> rfl
+
+theorem removeLast_triple (d : Deque) (m : Mem) : (d.removeLast m).2.2.1.triple = d.triple := by
+  unfold removeLast; split <;> rfl
+
+theorem replaceAt_triple (d : Deque) (x i : Nat) (m : Mem) : (d.replaceAt x i m).2.2.1.triple = d.triple := by
+  unfold replaceAt; split <;> rfl
 
 end CC.Deque
